@@ -340,7 +340,8 @@ class C09(Check):
                 R.violation(sig, desc, det)
             # non-initial state differential: after a new minimum the loop state equals the
             # initial state of a fresh search from the held configuration
-            if case.get('diff') and not run.cut and st['newmin_trace_pos'] and dev_at is None and not V:
+            if case.get('diff') and not cfg.get('pre') and not run.cut and st['newmin_trace_pos'] and dev_at is None \
+                    and not V:
                 p = st['newmin_trace_pos'][0]
                 held = st['held_at_newmin'][0]
                 rest = list(ctx.trace[p:])
